@@ -9,6 +9,8 @@ from engine import pat
 from engine.util import where
 
 RULES = {
+    "R-06.12": "names that compare equal have ONE canonical form: Name.to_wire(canonicalize=True) folds every label it emits, the origin's labels of a relative name included (the rule function of C15 R-15.5, run here directly because C15 adopts C06 rules)",
+    "R-06.11": "fullcompare has no shortcut around the label scan: a return that is not preceded by the `while` scan (not dominated by its test) is a mixed-relativity return - relation NONE and 0 common labels; every other result (SUBDOMAIN, SUPERDOMAIN, EQUAL, COMMONANCESTOR, and the number of labels in common that dns.btreezone's bounds() reads) is produced after the scan counted the common labels",
     "R-06.10": "NameDict.get_deepest_match agrees with is_superdomain only if max_depth covers every key: the private store is filled through __setitem__ alone (which maintains max_depth) - __init__ starts from an empty dict and routes initial contents through update()",
     "R-06.9": "inside dns/name.py a Name is never compared by identity (`is` / `is not`) with the module's Name constants root / empty: equal names are distinct objects (Name([]), a relativized origin, an unpickled copy), so identity makes equal names behave differently",
     "R-06.8": "the predecessor padding never builds a label above 63 octets: _pad_to_max_name appends 63-octet labels while more than 64 octets are left (each costs 64 on the wire) and a last label of needed-1 <= 63 octets; _pad_to_max_label extends a label by at most 63 - len(label)",
@@ -210,6 +212,23 @@ def run(model, rep, tier):
         okk = a == ["namereln = NameRelation.SUPERDOMAIN"] and el is not None and " ".join(src(el.test).split()) == "ldiff > 0" and \
             [stmt_key(s) for s in el.body] == ["namereln = NameRelation.SUBDOMAIN"] and [stmt_key(s) for s in el.orelse] == ["namereln = NameRelation.EQUAL"]
     rep.check(okk, "R-06.3", fc.qualname, where(fc, fc.node), "shorter = SUPERDOMAIN, longer = SUBDOMAIN, same length = EQUAL", "relation derived from the length difference changed", stmt="relation")
+    # ---------------------------------------------------------------- R-06.11
+    wh_nodes = [n.id for n in cfg.nodes if isinstance(n.ast, ast.While)]
+    rets11 = [n for n in cfg.nodes if isinstance(n.ast, ast.Return)]
+    if len(wh_nodes) != 1:
+        rep.blind("R-06.11", fc.qualname, where(fc, fc.node), f"{len(wh_nodes)} while loops in fullcompare (expected the one label scan)", stmt="scan-loop")
+    else:
+        n_pre = 0
+        for rn in rets11:
+            if cfg.dominated_by_set(rn.id, wh_nodes):
+                continue
+            n_pre += 1
+            v = rn.ast.value
+            okk = isinstance(v, ast.Tuple) and len(v.elts) == 3 and src(v.elts[0]) == "NameRelation.NONE" and isinstance(v.elts[2], ast.Constant) and v.elts[2].value == 0
+            rep.check(okk, "R-06.11", fc.qualname, where(fc, rn.ast), "a return before the scan is a mixed-relativity result (NONE, 0 labels in common)",
+                      f"`return {src(v)[:60]}` leaves before the label scan: the number of common labels was not counted (it is still its initial value), so callers that read it - dns.btreezone's bounds() takes the closest encloser from it - get 0",
+                      stmt="pre-scan-return")
+        rep.floor("R-06.11", n_pre, 2)
     tb = [stmt_key(n) for n in fcn.body if isinstance(n, ast.Assign) and src(n.targets[0]) == "order"]
     rep.check("order = ldiff" in tb, "R-06.3", fc.qualname, where(fc, fc.node), "tie-break: order = length difference", "length tie-break no longer has the sign of len(self) - len(other)", stmt="tie-break")
     for qn, rel in (("dns.name.Name.is_subdomain", "SUBDOMAIN"), ("dns.name.Name.is_superdomain", "SUPERDOMAIN")):
@@ -412,6 +431,8 @@ def run(model, rep, tier):
                                 "(Name([]), the origin relativized to itself, a copy) takes the other branch, so equal names behave differently", stmt=f"identity {side.id}")
     rep.floor("R-06.9-name-constants", len(name_consts), 2)
     rep.ok("R-06.9", "dns.name", "dns/name.py", f"no identity comparison with the Name constants {sorted(name_consts)}", stmt="no-identity-compare")
+    from rules.c15 import check_name_canonical_wire
+    check_name_canonical_wire(model, rep, "R-06.12")
     rep.meta["explanation"] = (
         "Names are touched only through comparisons, a finite structure: the operator table, the single normaliser shared by compare/hash/canonical forms, "
         "the mirrored arms of fullcompare and the relativity guards are read from the AST and compared with RFC 4034 6.1. Totality/transitivity follow from these plus "
@@ -429,6 +450,10 @@ def _blocks(fn):
 
 
 WITNESSES = [
+    {"id": "c06-fullcompare-subdomain-fast-path", "rule": "R-06.11", "file": "dns/name.py", "expect": "fires",
+     "old": "        namereln = NameRelation.NONE\n        while l > 0:", "new": "        namereln = NameRelation.NONE\n        if ldiff > 0 and self.labels[ldiff:] == other.labels:\n            return (NameRelation.SUBDOMAIN, ldiff, nlabels)\n        while l > 0:"},
+    {"id": "c06-fullcompare-equal-fast-path", "rule": "R-06.11", "file": "dns/name.py", "expect": "fires",
+     "old": "        l1 = len(self.labels)\n        l2 = len(other.labels)\n        ldiff = l1 - l2", "new": "        if self.labels == other.labels:\n            return (NameRelation.EQUAL, 0, 0)\n        l1 = len(self.labels)\n        l2 = len(other.labels)\n        ldiff = l1 - l2"},
     {"id": "c06-namedict-init-fills-store", "rule": "R-06.10", "file": "dns/namedict.py", "expect": "fires",
      "old": "        self.__store = dict()\n", "new": "        self.__store = dict(*args, **kwargs)\n"},
     {"id": "c06-parent-empty-by-identity", "rule": "R-06.9", "file": "dns/name.py", "expect": "fires",
